@@ -55,6 +55,13 @@ func (rule *RuleEvents) checkEvent(event Event) {
 
 // https://docs.github.com/en/actions/learn-github-actions/workflow-syntax-for-github-actions#onschedule
 func (rule *RuleEvents) checkCron(spec *String) {
+	// The cron parser slices the time zone name up to the first space without checking that there
+	// is one: "TZ=UTC" made it panic with "slice bounds out of range"
+	if (strings.HasPrefix(spec.Value, "TZ=") || strings.HasPrefix(spec.Value, "CRON_TZ=")) && !strings.Contains(spec.Value, " ") {
+		rule.Errorf(spec.Pos, "invalid CRON format %q in schedule event: time zone is not followed by a space and the schedule", spec.Value)
+		return
+	}
+
 	p := cron.NewParser(cron.Minute | cron.Hour | cron.Dom | cron.Month | cron.Dow)
 	sched, err := p.Parse(spec.Value)
 	if err != nil {
